@@ -197,7 +197,8 @@ class NodeRun:
         for name in self.peers:
             self.node.take_sent(name)
         self.mw = None
-        self.events.append({"op": "restart", "now": self.clock(), "post": self.post()})
+        self.events.append({"op": "restart", "now": self.clock(), "read_order": [self.w.balias(h) for h in getattr(self.node, "read_order", [])],
+                            "post": self.post()})
         self.labels.append("restart")
 
     def trace(self):
